@@ -77,6 +77,9 @@ func CDF(q float64, c CumulantKind, x, weights []float64) float64 {
 		panic("x data are not sorted")
 	}
 
+	if math.IsNaN(q) {
+		return math.NaN()
+	}
 	if q < x[0] {
 		return 0
 	}
@@ -1124,7 +1127,9 @@ func empiricalQuantile(p float64, x, weights []float64, sumWeights float64) floa
 			return x[i]
 		}
 	}
-	panic("impossible")
+	// The sequential sum of the weights may round to less than p times the
+	// total weight computed by floats.Sum: the quantile is then the last element.
+	return x[len(x)-1]
 }
 
 func linInterpQuantile(p float64, x, weights []float64, sumWeights float64) float64 {
@@ -1147,7 +1152,8 @@ func linInterpQuantile(p float64, x, weights []float64, sumWeights float64) floa
 			return t*x[i-1] + (1-t)*x[i]
 		}
 	}
-	panic("impossible")
+	// See empiricalQuantile.
+	return x[len(x)-1]
 }
 
 // Skew computes the skewness of the sample data.
